@@ -16,11 +16,32 @@ def extract(read):
     ends = [a for a, b in arms if "return Ok(false)" in b]
     if not ends:
         raise RuntimeError("no session-ending arm found")
-    # the sequence number is taken before the transport lock in send_event_raw
-    ev = re.search(r"fn send_event_raw\(.*?\n    \}\n", src, re.S)
-    seq_before_lock = bool(ev and ev.group(0).index("self.next_seq()") < ev.group(0).index("self.io.lock()"))
+    # the sequence number is taken while the transport is locked: `next_seq` is the only `fetch_add` of the
+    # counter, it demands the locked transport, and every call site locks `io` just before calling it
+    fetches = len(re.findall(r"fetch_add\(", src))
+    helper = re.search(r"fn next_seq\(server_seq: &AtomicI64, _locked_io: &mut dyn DapTransport\) -> i64 \{\s*server_seq\.fetch_add\(", src)
+    calls = [m.start() for m in re.finditer(r"Self::next_seq\(", src)]
+    def locked_before(pos):
+        before = src[max(0, pos - 400):pos]
+        k = before.rfind(".lock().unwrap();")
+        return k >= 0 and "}" not in before[k:]
+    seq_under_lock = bool(helper) and fetches == 1 and len(calls) >= 3 and all(locked_before(c) for c in calls)
+    # the forwarder reads the `terminated` latch after it locked the transport and before it takes a number;
+    # the session stores `true` into it before it sends `terminated`
+    fw = re.search(r"fn spawn_output_forwarder\(.*?\n    \}\n", src, re.S)
+    fwt = fw.group(0) if fw else ""
+    i_lock, i_latch, i_seq = fwt.find("io.lock().unwrap()"), fwt.find("if !terminated.load("), fwt.find("Self::next_seq(")
+    dr = re.search(r"fn drain_events\(.*?\n    \}\n", src, re.S)
+    drt = dr.group(0) if dr else ""
+    stores = [m.start() for m in re.finditer(r"self\.terminated\.store\(true", drt)]
+    sends = [m.start() for m in re.finditer(r'self\.send_event\("terminated"\)', drt)]
+    latch_under_lock = (0 <= i_lock < i_latch < i_seq and len(stores) == 2 and len(sends) == 2
+                        and all(a < b for a, b in zip(stores, sends)))
     q = lambda xs: "[" + ", ".join('"%s"' % x for x in xs) + "]"
     return (f"def commands : List String := {q(cmds)}\n\n"
             f"def endsSession : List String := {q(ends)}\n\n"
-            f"/-- `send_event_raw` calls `next_seq()` textually before `io.lock()` -/\n"
-            f"def seqBeforeLock : Bool := {'true' if seq_before_lock else 'false'}\n")
+            f"/-- every sequence number is taken by `next_seq`, with the transport locked by the caller -/\n"
+            f"def seqUnderLock : Bool := {'true' if seq_under_lock else 'false'}\n\n"
+            f"/-- a forwarder reads the `terminated` latch under the transport lock, before it takes a number; the session\n"
+            f"sets the latch before it sends `terminated` -/\n"
+            f"def latchUnderLock : Bool := {'true' if latch_under_lock else 'false'}\n")
